@@ -59,6 +59,19 @@ def natural_basis(system):
     return M.T
 
 
+def reindex(df, kind):
+    """Row labels other than 0..n-1 (what sort_values / boolean filtering / set_index leave behind): rows keep their positions."""
+    import pandas
+    n = len(df)
+    if kind == "reversed":
+        df.index = pandas.Index(list(range(n - 1, -1, -1)))
+    elif kind == "offset":
+        df.index = pandas.Index([3 + 2 * i for i in range(n)])
+    elif kind == "float":
+        df.index = pandas.Index([900.5 - 7.25 * i for i in range(n)], name="vol")
+    return df
+
+
 def make_table(values, keys, names=None, extra=None, volumes=None, dtype=None):
     """pandas DataFrame with the given component columns (values: (nrows, len(keys)))."""
     import pandas
